@@ -631,14 +631,13 @@ fn main() {
     tally = tally.add(t2);
 
     // Depth 3: op2(op1(x, y), z) and op2(z, op1(x, y)).
-    // quick: x, y, z from the core set; thorough: x, y core, z any leaf; plus balanced trees
-    // op3(op1(x, y), op2(x', y')) over a tiny set in the thorough tier.
+    // quick: x, y, z from the core set; thorough: x, y, z any leaf; plus balanced trees
+    // op3(op1(x, y), op2(x', y')) over a small set in the thorough tier.
     let core: Vec<usize> = (0..n_leaves).filter(|&i| is_core(&leaves[i].spec)).collect();
     let everything: Vec<usize> = (0..n_leaves).collect();
-    let non_core: Vec<usize> = (0..n_leaves).filter(|i| !core.contains(i)).collect();
-    // (operands of the inner operator, the third operand); the two thorough passes are disjoint
+    // (operands of the inner operator, the third operand)
     let passes: Vec<(&Vec<usize>, &Vec<usize>)> = if thorough {
-        vec![(&everything, &core), (&core, &non_core)]
+        vec![(&everything, &everything)]
     } else {
         vec![(&core, &core)]
     };
